@@ -1,4 +1,5 @@
 #include "nanolang.h"
+#include <stdarg.h>
 #include "tracing.h"
 #include "resource_tracking.h"
 #include "colors.h"
@@ -14,6 +15,17 @@ static void emit_context_error(
 
 /* Set by emit_context_error for every non-warning diagnostic; consulted by type_check() */
 static bool g_typecheck_error_reported = false;
+
+/* Diagnostics printed while checking an expression (which has no TypeChecker to flag): the
+ * text goes to stderr as before and the check is recorded as failed. */
+static void tc_expr_error(const char *fmt, ...) __attribute__((format(printf, 1, 2)));
+static void tc_expr_error(const char *fmt, ...) {
+    va_list ap;
+    g_typecheck_error_reported = true;
+    va_start(ap, fmt);
+    vfprintf(stderr, fmt, ap);
+    va_end(ap);
+}
 
 /* Type checking context */
 typedef struct {
@@ -665,7 +677,7 @@ static Type check_expression_impl(ASTNode *expr, Environment *env) {
             char **parts = expr->as.qualified_name.name_parts;
             
             if (part_count < 2) {
-                fprintf(stderr, "Error at line %d, column %d: Invalid qualified name (need at least 2 parts)\n",
+                tc_expr_error("Error at line %d, column %d: Invalid qualified name (need at least 2 parts)\n",
                         expr->line, expr->column);
                 return TYPE_UNKNOWN;
             }
@@ -739,7 +751,7 @@ static Type check_expression_impl(ASTNode *expr, Environment *env) {
             }
             
             /* Nested modules not yet supported */
-            fprintf(stderr, "Error at line %d, column %d: Nested module paths not yet implemented\n",
+            tc_expr_error("Error at line %d, column %d: Nested module paths not yet implemented\n",
                     expr->line, expr->column);
             return TYPE_UNKNOWN;
         }
@@ -762,10 +774,10 @@ static Type check_expression_impl(ASTNode *expr, Environment *env) {
                         if (elem == TYPE_UNKNOWN || elem == TYPE_INT || elem == TYPE_ENUM || elem == TYPE_FLOAT) {
                             return TYPE_ARRAY;
                         }
-                        fprintf(stderr, "Error at line %d, column %d: Unary minus requires array<int> or array<float>\n", expr->line, expr->column);
+                        tc_expr_error("Error at line %d, column %d: Unary minus requires array<int> or array<float>\n", expr->line, expr->column);
                         return TYPE_UNKNOWN;
                     }
-                    fprintf(stderr, "Error at line %d, column %d: Unary minus requires numeric type\n", expr->line, expr->column);
+                    tc_expr_error("Error at line %d, column %d: Unary minus requires numeric type\n", expr->line, expr->column);
                     return TYPE_UNKNOWN;
                 }
                 
@@ -817,7 +829,7 @@ static Type check_expression_impl(ASTNode *expr, Environment *env) {
 
                     if (op == TOKEN_PERCENT) {
                         if (left_elem == TYPE_INT && right_elem == TYPE_INT) return TYPE_ARRAY;
-                        fprintf(stderr, "Error at line %d, column %d: %% only supported on array<int> or array<u8>\n", expr->line, expr->column);
+                        tc_expr_error("Error at line %d, column %d: %% only supported on array<int> or array<u8>\n", expr->line, expr->column);
                         return TYPE_UNKNOWN;
                     }
 
@@ -1013,7 +1025,7 @@ static Type check_expression_impl(ASTNode *expr, Environment *env) {
                 /* First, check the inner function call */
                 Type inner_type = check_expression(expr->as.call.func_expr, env);
                 if (inner_type != TYPE_FUNCTION) {
-                    fprintf(stderr, "Error at line %d, column %d: Expression does not return a function\n",
+                    tc_expr_error("Error at line %d, column %d: Expression does not return a function\n",
                             expr->line, expr->column);
                     return TYPE_UNKNOWN;
                 }
@@ -1067,7 +1079,7 @@ static Type check_expression_impl(ASTNode *expr, Environment *env) {
             /* Result<T, E> helper intrinsics (generic-function stopgap) */
             if (strcmp(expr->as.call.name, "result_is_ok") == 0 || strcmp(expr->as.call.name, "result_is_err") == 0) {
                 if (expr->as.call.arg_count != 1) {
-                    fprintf(stderr, "Error at line %d, column %d: %s requires 1 argument\n",
+                    tc_expr_error("Error at line %d, column %d: %s requires 1 argument\n",
                             expr->line, expr->column, expr->as.call.name);
                     return TYPE_UNKNOWN;
                 }
@@ -1080,7 +1092,7 @@ static Type check_expression_impl(ASTNode *expr, Environment *env) {
                 strcmp(expr->as.call.name, "result_unwrap_or") == 0) {
                 int expected = (strcmp(expr->as.call.name, "result_unwrap_or") == 0) ? 2 : 1;
                 if (expr->as.call.arg_count != expected) {
-                    fprintf(stderr, "Error at line %d, column %d: %s requires %d argument(s)\n",
+                    tc_expr_error("Error at line %d, column %d: %s requires %d argument(s)\n",
                             expr->line, expr->column, expr->as.call.name, expected);
                     return TYPE_UNKNOWN;
                 }
@@ -1088,7 +1100,7 @@ static Type check_expression_impl(ASTNode *expr, Environment *env) {
                 ASTNode *res_expr = expr->as.call.args[0];
                 Type res_type = check_expression(res_expr, env);
                 if (res_type != TYPE_UNION) {
-                    fprintf(stderr, "Error at line %d, column %d: %s requires a Result<T, E> union value\n",
+                    tc_expr_error("Error at line %d, column %d: %s requires a Result<T, E> union value\n",
                             expr->line, expr->column, expr->as.call.name);
                     return TYPE_UNKNOWN;
                 }
@@ -1110,7 +1122,7 @@ static Type check_expression_impl(ASTNode *expr, Environment *env) {
                 if (strcmp(expr->as.call.name, "result_unwrap_or") == 0) {
                     Type default_type = check_expression(expr->as.call.args[1], env);
                     if (default_type != out_type) {
-                        fprintf(stderr, "Error at line %d, column %d: result_unwrap_or default value type mismatch\n",
+                        tc_expr_error("Error at line %d, column %d: result_unwrap_or default value type mismatch\n",
                                 expr->line, expr->column);
                     }
                 }
@@ -1120,7 +1132,7 @@ static Type check_expression_impl(ASTNode *expr, Environment *env) {
 
             if (strcmp(expr->as.call.name, "result_map") == 0 || strcmp(expr->as.call.name, "result_and_then") == 0) {
                 if (expr->as.call.arg_count != 2) {
-                    fprintf(stderr, "Error at line %d, column %d: %s requires 2 arguments\n",
+                    tc_expr_error("Error at line %d, column %d: %s requires 2 arguments\n",
                             expr->line, expr->column, expr->as.call.name);
                     return TYPE_UNKNOWN;
                 }
@@ -1374,14 +1386,14 @@ static Type check_expression_impl(ASTNode *expr, Environment *env) {
                 /* HashMap<K,V> core built-ins (only if no user-defined function with same name exists) */
                 if (strcmp(expr->as.call.name, "map_new") == 0) {
                     if (expr->as.call.arg_count != 0) {
-                        fprintf(stderr, "Error at line %d, column %d: map_new requires 0 arguments\n",
+                        tc_expr_error("Error at line %d, column %d: map_new requires 0 arguments\n",
                                 expr->line, expr->column);
                         return TYPE_UNKNOWN;
                     }
 
                     /* Requires type context (e.g., let hm: HashMap<K,V> = (map_new)) */
                     if (!expr->as.call.return_struct_type_name) {
-                        fprintf(stderr, "Error at line %d, column %d: map_new requires a HashMap<K,V> type annotation\n",
+                        tc_expr_error("Error at line %d, column %d: map_new requires a HashMap<K,V> type annotation\n",
                                 expr->line, expr->column);
                         return TYPE_UNKNOWN;
                     }
@@ -1390,7 +1402,7 @@ static Type check_expression_impl(ASTNode *expr, Environment *env) {
 
                 if (strcmp(expr->as.call.name, "map_put") == 0 || strcmp(expr->as.call.name, "map_set") == 0) {
                     if (expr->as.call.arg_count != 3) {
-                        fprintf(stderr, "Error at line %d, column %d: %s requires 3 arguments\n",
+                        tc_expr_error("Error at line %d, column %d: %s requires 3 arguments\n",
                                 expr->line, expr->column, expr->as.call.name);
                         return TYPE_UNKNOWN;
                     }
@@ -1398,7 +1410,7 @@ static Type check_expression_impl(ASTNode *expr, Environment *env) {
                     Type key_t = check_expression(expr->as.call.args[1], env);
                     Type val_t = check_expression(expr->as.call.args[2], env);
                     if (hm_t != TYPE_HASHMAP) {
-                        fprintf(stderr, "Error at line %d, column %d: %s expects HashMap as first argument\n",
+                        tc_expr_error("Error at line %d, column %d: %s expects HashMap as first argument\n",
                                 expr->line, expr->column, expr->as.call.name);
                         return TYPE_UNKNOWN;
                     }
@@ -1406,12 +1418,12 @@ static Type check_expression_impl(ASTNode *expr, Environment *env) {
                     Type exp_k = TYPE_UNKNOWN;
                     Type exp_v = TYPE_UNKNOWN;
                     if (!hashmap_extract_kv(hm_info, &exp_k, &exp_v)) {
-                        fprintf(stderr, "Error at line %d, column %d: Cannot infer HashMap<K,V> type arguments\n",
+                        tc_expr_error("Error at line %d, column %d: Cannot infer HashMap<K,V> type arguments\n",
                                 expr->line, expr->column);
                         return TYPE_UNKNOWN;
                     }
                     if (!types_match(key_t, exp_k) || !types_match(val_t, exp_v)) {
-                        fprintf(stderr, "Error at line %d, column %d: %s expects key %s and value %s\n",
+                        tc_expr_error("Error at line %d, column %d: %s expects key %s and value %s\n",
                                 expr->line, expr->column, expr->as.call.name, type_to_string(exp_k), type_to_string(exp_v));
                         return TYPE_UNKNOWN;
                     }
@@ -1420,14 +1432,14 @@ static Type check_expression_impl(ASTNode *expr, Environment *env) {
 
                 if (strcmp(expr->as.call.name, "map_get") == 0) {
                     if (expr->as.call.arg_count != 2) {
-                        fprintf(stderr, "Error at line %d, column %d: map_get requires 2 arguments\n",
+                        tc_expr_error("Error at line %d, column %d: map_get requires 2 arguments\n",
                                 expr->line, expr->column);
                         return TYPE_UNKNOWN;
                     }
                     Type hm_t = check_expression(expr->as.call.args[0], env);
                     Type key_t = check_expression(expr->as.call.args[1], env);
                     if (hm_t != TYPE_HASHMAP) {
-                        fprintf(stderr, "Error at line %d, column %d: map_get expects HashMap as first argument\n",
+                        tc_expr_error("Error at line %d, column %d: map_get expects HashMap as first argument\n",
                                 expr->line, expr->column);
                         return TYPE_UNKNOWN;
                     }
@@ -1435,12 +1447,12 @@ static Type check_expression_impl(ASTNode *expr, Environment *env) {
                     Type exp_k = TYPE_UNKNOWN;
                     Type exp_v = TYPE_UNKNOWN;
                     if (!hashmap_extract_kv(hm_info, &exp_k, &exp_v)) {
-                        fprintf(stderr, "Error at line %d, column %d: Cannot infer HashMap<K,V> type arguments\n",
+                        tc_expr_error("Error at line %d, column %d: Cannot infer HashMap<K,V> type arguments\n",
                                 expr->line, expr->column);
                         return TYPE_UNKNOWN;
                     }
                     if (!types_match(key_t, exp_k)) {
-                        fprintf(stderr, "Error at line %d, column %d: map_get expects key type %s\n",
+                        tc_expr_error("Error at line %d, column %d: map_get expects key type %s\n",
                                 expr->line, expr->column, type_to_string(exp_k));
                         return TYPE_UNKNOWN;
                     }
@@ -1449,26 +1461,26 @@ static Type check_expression_impl(ASTNode *expr, Environment *env) {
 
                 if (strcmp(expr->as.call.name, "map_has") == 0) {
                     if (expr->as.call.arg_count != 2) {
-                        fprintf(stderr, "Error at line %d, column %d: map_has requires 2 arguments\n",
+                        tc_expr_error("Error at line %d, column %d: map_has requires 2 arguments\n",
                                 expr->line, expr->column);
                         return TYPE_UNKNOWN;
                     }
                     Type hm_t = check_expression(expr->as.call.args[0], env);
                     Type key_t = check_expression(expr->as.call.args[1], env);
                     if (hm_t != TYPE_HASHMAP) {
-                        fprintf(stderr, "Error at line %d, column %d: map_has expects HashMap as first argument\n",
+                        tc_expr_error("Error at line %d, column %d: map_has expects HashMap as first argument\n",
                                 expr->line, expr->column);
                         return TYPE_UNKNOWN;
                     }
                     TypeInfo *hm_info = try_get_expr_type_info(expr->as.call.args[0], env);
                     Type exp_k = TYPE_UNKNOWN;
                     if (!hashmap_extract_kv(hm_info, &exp_k, NULL)) {
-                        fprintf(stderr, "Error at line %d, column %d: Cannot infer HashMap<K,V> type arguments\n",
+                        tc_expr_error("Error at line %d, column %d: Cannot infer HashMap<K,V> type arguments\n",
                                 expr->line, expr->column);
                         return TYPE_UNKNOWN;
                     }
                     if (!types_match(key_t, exp_k)) {
-                        fprintf(stderr, "Error at line %d, column %d: map_has expects key type %s\n",
+                        tc_expr_error("Error at line %d, column %d: map_has expects key type %s\n",
                                 expr->line, expr->column, type_to_string(exp_k));
                         return TYPE_UNKNOWN;
                     }
@@ -1477,26 +1489,26 @@ static Type check_expression_impl(ASTNode *expr, Environment *env) {
 
                 if (strcmp(expr->as.call.name, "map_remove") == 0) {
                     if (expr->as.call.arg_count != 2) {
-                        fprintf(stderr, "Error at line %d, column %d: map_remove requires 2 arguments\n",
+                        tc_expr_error("Error at line %d, column %d: map_remove requires 2 arguments\n",
                                 expr->line, expr->column);
                         return TYPE_UNKNOWN;
                     }
                     Type hm_t = check_expression(expr->as.call.args[0], env);
                     Type key_t = check_expression(expr->as.call.args[1], env);
                     if (hm_t != TYPE_HASHMAP) {
-                        fprintf(stderr, "Error at line %d, column %d: map_remove expects HashMap as first argument\n",
+                        tc_expr_error("Error at line %d, column %d: map_remove expects HashMap as first argument\n",
                                 expr->line, expr->column);
                         return TYPE_UNKNOWN;
                     }
                     TypeInfo *hm_info = try_get_expr_type_info(expr->as.call.args[0], env);
                     Type exp_k = TYPE_UNKNOWN;
                     if (!hashmap_extract_kv(hm_info, &exp_k, NULL)) {
-                        fprintf(stderr, "Error at line %d, column %d: Cannot infer HashMap<K,V> type arguments\n",
+                        tc_expr_error("Error at line %d, column %d: Cannot infer HashMap<K,V> type arguments\n",
                                 expr->line, expr->column);
                         return TYPE_UNKNOWN;
                     }
                     if (!types_match(key_t, exp_k)) {
-                        fprintf(stderr, "Error at line %d, column %d: map_remove expects key type %s\n",
+                        tc_expr_error("Error at line %d, column %d: map_remove expects key type %s\n",
                                 expr->line, expr->column, type_to_string(exp_k));
                         return TYPE_UNKNOWN;
                     }
@@ -1505,13 +1517,13 @@ static Type check_expression_impl(ASTNode *expr, Environment *env) {
 
                 if (strcmp(expr->as.call.name, "map_length") == 0 || strcmp(expr->as.call.name, "map_size") == 0) {
                     if (expr->as.call.arg_count != 1) {
-                        fprintf(stderr, "Error at line %d, column %d: %s requires 1 argument\n",
+                        tc_expr_error("Error at line %d, column %d: %s requires 1 argument\n",
                                 expr->line, expr->column, expr->as.call.name);
                         return TYPE_UNKNOWN;
                     }
                     Type hm_t = check_expression(expr->as.call.args[0], env);
                     if (hm_t != TYPE_HASHMAP) {
-                        fprintf(stderr, "Error at line %d, column %d: %s expects HashMap as first argument\n",
+                        tc_expr_error("Error at line %d, column %d: %s expects HashMap as first argument\n",
                                 expr->line, expr->column, expr->as.call.name);
                         return TYPE_UNKNOWN;
                     }
@@ -1520,13 +1532,13 @@ static Type check_expression_impl(ASTNode *expr, Environment *env) {
 
                 if (strcmp(expr->as.call.name, "map_clear") == 0 || strcmp(expr->as.call.name, "map_free") == 0) {
                     if (expr->as.call.arg_count != 1) {
-                        fprintf(stderr, "Error at line %d, column %d: %s requires 1 argument\n",
+                        tc_expr_error("Error at line %d, column %d: %s requires 1 argument\n",
                                 expr->line, expr->column, expr->as.call.name);
                         return TYPE_UNKNOWN;
                     }
                     Type hm_t = check_expression(expr->as.call.args[0], env);
                     if (hm_t != TYPE_HASHMAP) {
-                        fprintf(stderr, "Error at line %d, column %d: %s expects HashMap as first argument\n",
+                        tc_expr_error("Error at line %d, column %d: %s expects HashMap as first argument\n",
                                 expr->line, expr->column, expr->as.call.name);
                         return TYPE_UNKNOWN;
                     }
@@ -1535,13 +1547,13 @@ static Type check_expression_impl(ASTNode *expr, Environment *env) {
 
                 if (strcmp(expr->as.call.name, "map_keys") == 0 || strcmp(expr->as.call.name, "map_values") == 0) {
                     if (expr->as.call.arg_count != 1) {
-                        fprintf(stderr, "Error at line %d, column %d: %s requires 1 argument\n",
+                        tc_expr_error("Error at line %d, column %d: %s requires 1 argument\n",
                                 expr->line, expr->column, expr->as.call.name);
                         return TYPE_UNKNOWN;
                     }
                     Type hm_t = check_expression(expr->as.call.args[0], env);
                     if (hm_t != TYPE_HASHMAP) {
-                        fprintf(stderr, "Error at line %d, column %d: %s expects HashMap as first argument\n",
+                        tc_expr_error("Error at line %d, column %d: %s expects HashMap as first argument\n",
                                 expr->line, expr->column, expr->as.call.name);
                         return TYPE_UNKNOWN;
                     }
@@ -1742,7 +1754,7 @@ static Type check_expression_impl(ASTNode *expr, Environment *env) {
                             if (func->params[i].type == TYPE_STRUCT && func->params[i].struct_type_name) {
                                 arg->as.struct_literal.struct_name = strdup(func->params[i].struct_type_name);
                             } else {
-                                fprintf(stderr, "Error at line %d, column %d: Cannot infer struct type for anonymous literal in function argument\n",
+                                tc_expr_error("Error at line %d, column %d: Cannot infer struct type for anonymous literal in function argument\n",
                                         arg->line, arg->column);
                             }
                         }
@@ -2166,7 +2178,7 @@ static Type check_expression_impl(ASTNode *expr, Environment *env) {
                 for (int i = 1; i < expr->as.cond_expr.clause_count; i++) {
                     Type val_type = check_expression(expr->as.cond_expr.values[i], env);
                     if (val_type != result_type && result_type != TYPE_UNKNOWN && val_type != TYPE_UNKNOWN) {
-                        fprintf(stderr, "Error at line %d, column %d: All cond clause values must have the same type\n",
+                        tc_expr_error("Error at line %d, column %d: All cond clause values must have the same type\n",
                                 expr->line, expr->column);
                     }
                 }
@@ -2175,7 +2187,7 @@ static Type check_expression_impl(ASTNode *expr, Environment *env) {
             /* Type check else value (must match clause values) */
             Type else_type = check_expression(expr->as.cond_expr.else_value, env);
             if (else_type != result_type && result_type != TYPE_UNKNOWN && else_type != TYPE_UNKNOWN) {
-                fprintf(stderr, "Error at line %d, column %d: Cond else value must have the same type as clause values\n",
+                tc_expr_error("Error at line %d, column %d: Cond else value must have the same type as clause values\n",
                         expr->line, expr->column);
             }
             
@@ -2185,7 +2197,7 @@ static Type check_expression_impl(ASTNode *expr, Environment *env) {
         case AST_STRUCT_LITERAL: {
             /* Check if struct name was inferred (should happen in let/return/call context) */
             if (expr->as.struct_literal.struct_name == NULL) {
-                fprintf(stderr, "Error at line %d, column %d: Anonymous struct literal requires type context\n",
+                tc_expr_error("Error at line %d, column %d: Anonymous struct literal requires type context\n",
                         expr->line, expr->column);
                 return TYPE_UNKNOWN;
             }
@@ -2212,7 +2224,7 @@ static Type check_expression_impl(ASTNode *expr, Environment *env) {
                 /* Find the variant index */
                 int variant_idx = env_get_union_variant_index(env, union_name, variant_name);
                 if (variant_idx < 0) {
-                    fprintf(stderr, "Error at line %d, column %d: Unknown variant '%s' in union '%s'\n",
+                    tc_expr_error("Error at line %d, column %d: Unknown variant '%s' in union '%s'\n",
                             expr->line, expr->column, variant_name, union_name);
                     free(union_name);
                     return TYPE_UNKNOWN;
@@ -2220,7 +2232,7 @@ static Type check_expression_impl(ASTNode *expr, Environment *env) {
                 
                 /* Verify field count matches */
                 if (expr->as.struct_literal.field_count != udef->variant_field_counts[variant_idx]) {
-                    fprintf(stderr, "Error at line %d, column %d: Variant '%s.%s' expects %d fields, got %d\n",
+                    tc_expr_error("Error at line %d, column %d: Variant '%s.%s' expects %d fields, got %d\n",
                             expr->line, expr->column, union_name, variant_name,
                             udef->variant_field_counts[variant_idx], expr->as.struct_literal.field_count);
                     free(union_name);
@@ -2258,7 +2270,7 @@ static Type check_expression_impl(ASTNode *expr, Environment *env) {
                     }
 
                     if (!types_match(field_type, expected)) {
-                        fprintf(stderr, "Error at line %d, column %d: Field type mismatch in variant '%s.%s'\n",
+                        tc_expr_error("Error at line %d, column %d: Field type mismatch in variant '%s.%s'\n",
                                 expr->line, expr->column, union_name, variant_name);
                     }
 
@@ -2276,7 +2288,7 @@ static Type check_expression_impl(ASTNode *expr, Environment *env) {
             /* Check that struct is defined */
             StructDef *sdef = env_get_struct(env, expr->as.struct_literal.struct_name);
             if (!sdef) {
-                fprintf(stderr, "Error at line %d, column %d: Undefined struct '%s'\n",
+                tc_expr_error("Error at line %d, column %d: Undefined struct '%s'\n",
                         expr->line, expr->column, expr->as.struct_literal.struct_name);
                 return TYPE_UNKNOWN;
             }
@@ -2289,7 +2301,7 @@ static Type check_expression_impl(ASTNode *expr, Environment *env) {
             
             /* Check that all fields are provided and types match */
             if (expr->as.struct_literal.field_count != sdef->field_count) {
-                fprintf(stderr, "Error at line %d, column %d: Struct '%s' expects %d fields, got %d\n",
+                tc_expr_error("Error at line %d, column %d: Struct '%s' expects %d fields, got %d\n",
                         expr->line, expr->column, expr->as.struct_literal.struct_name,
                         sdef->field_count, expr->as.struct_literal.field_count);
                 return TYPE_UNKNOWN;
@@ -2309,7 +2321,7 @@ static Type check_expression_impl(ASTNode *expr, Environment *env) {
                 }
                 
                 if (field_index == -1) {
-                    fprintf(stderr, "Error at line %d, column %d: Unknown field '%s' in struct '%s'\n",
+                    tc_expr_error("Error at line %d, column %d: Unknown field '%s' in struct '%s'\n",
                             expr->line, expr->column, field_name, expr->as.struct_literal.struct_name);
                     fprintf(stderr, "  Known fields:");
                     for (int j = 0; j < sdef->field_count; j++) {
@@ -2322,7 +2334,7 @@ static Type check_expression_impl(ASTNode *expr, Environment *env) {
                 /* Check field type */
                 Type field_type = check_expression(expr->as.struct_literal.field_values[i], env);
                 if (!types_match(field_type, sdef->field_types[field_index])) {
-                    fprintf(stderr, "Error at line %d, column %d: Field '%s' type mismatch in struct '%s' (expected %s, got %s)\n",
+                    tc_expr_error("Error at line %d, column %d: Field '%s' type mismatch in struct '%s' (expected %s, got %s)\n",
                             expr->line, expr->column, field_name, expr->as.struct_literal.struct_name,
                             type_to_string(sdef->field_types[field_index]), type_to_string(field_type));
                 }
@@ -2335,7 +2347,7 @@ static Type check_expression_impl(ASTNode *expr, Environment *env) {
             /* Check object is not NULL */
             assert(expr->as.field_access.object != NULL);
             if (!expr->as.field_access.object) {
-                safe_fprintf(stderr, "Error at line %d, column %d: NULL object in field access\n",
+                tc_expr_error("Error at line %d, column %d: NULL object in field access\n",
                         expr->line, expr->column);
                 return TYPE_UNKNOWN;
             }
@@ -2345,7 +2357,7 @@ static Type check_expression_impl(ASTNode *expr, Environment *env) {
                 const char *enum_name = expr->as.field_access.object->as.identifier;
                 assert(enum_name != NULL);
                 if (!enum_name) {
-                    safe_fprintf(stderr, "Error at line %d, column %d: NULL enum name in field access\n",
+                    tc_expr_error("Error at line %d, column %d: NULL enum name in field access\n",
                             expr->line, expr->column);
                     return TYPE_UNKNOWN;
                 }
@@ -2357,7 +2369,7 @@ static Type check_expression_impl(ASTNode *expr, Environment *env) {
                     assert(variant_name != NULL);
                     
                     if (!variant_name) {
-                        safe_fprintf(stderr, "Error at line %d, column %d: NULL variant name in enum access\n",
+                        tc_expr_error("Error at line %d, column %d: NULL variant name in enum access\n",
                                 expr->line, expr->column);
                         return TYPE_UNKNOWN;
                     }
@@ -2369,7 +2381,7 @@ static Type check_expression_impl(ASTNode *expr, Environment *env) {
                         }
                     }
                     
-                    safe_fprintf(stderr, "Error at line %d, column %d: Enum '%s' has no variant '%s'\n",
+                    tc_expr_error("Error at line %d, column %d: Enum '%s' has no variant '%s'\n",
                             expr->line, expr->column, safe_format_string(enum_name), safe_format_string(variant_name));
                     return TYPE_UNKNOWN;
                 }
@@ -2379,7 +2391,7 @@ static Type check_expression_impl(ASTNode *expr, Environment *env) {
             /* Check the object type */
             Type object_type = check_expression(expr->as.field_access.object, env);
             if (object_type != TYPE_STRUCT) {
-                safe_fprintf(stderr, "Error at line %d, column %d: Field access requires a struct\n",
+                tc_expr_error("Error at line %d, column %d: Field access requires a struct\n",
                         expr->line, expr->column);
                 return TYPE_UNKNOWN;
             }
@@ -2387,7 +2399,7 @@ static Type check_expression_impl(ASTNode *expr, Environment *env) {
             /* Get the specific struct type name */
             const char *struct_name = get_struct_type_name(expr->as.field_access.object, env);
             if (!struct_name) {
-                fprintf(stderr, "Error at line %d, column %d: Cannot determine struct type for field access\n",
+                tc_expr_error("Error at line %d, column %d: Cannot determine struct type for field access\n",
                         expr->line, expr->column);
                 return TYPE_UNKNOWN;
             }
@@ -2413,7 +2425,7 @@ static Type check_expression_impl(ASTNode *expr, Environment *env) {
                 /* Find the variant */
                 int variant_idx = env_get_union_variant_index(env, union_name, variant_name);
                 if (variant_idx < 0) {
-                    fprintf(stderr, "Error at line %d, column %d: Unknown variant '%s' in union '%s'\n",
+                    tc_expr_error("Error at line %d, column %d: Unknown variant '%s' in union '%s'\n",
                             expr->line, expr->column, variant_name, union_name);
                     free(union_name);
                     return TYPE_UNKNOWN;
@@ -2457,7 +2469,7 @@ static Type check_expression_impl(ASTNode *expr, Environment *env) {
                 }
                 
                 /* Field not found */
-                fprintf(stderr, "Error at line %d, column %d: Variant '%s' of union '%s' has no field '%s'\n",
+                tc_expr_error("Error at line %d, column %d: Variant '%s' of union '%s' has no field '%s'\n",
                         expr->line, expr->column, variant_name, union_name, field_name);
                 free(union_name);
                 return TYPE_UNKNOWN;
@@ -2469,7 +2481,7 @@ static Type check_expression_impl(ASTNode *expr, Environment *env) {
             /* Look up the struct definition */
             StructDef *sdef = env_get_struct(env, struct_name);
             if (!sdef) {
-                fprintf(stderr, "Error at line %d, column %d: Undefined struct '%s'\n",
+                tc_expr_error("Error at line %d, column %d: Undefined struct '%s'\n",
                         expr->line, expr->column, struct_name);
                 return TYPE_UNKNOWN;
             }
@@ -2483,7 +2495,7 @@ static Type check_expression_impl(ASTNode *expr, Environment *env) {
             }
             
             /* Field not found */
-            fprintf(stderr, "Error at line %d, column %d: Struct '%s' has no field '%s'\n",
+            tc_expr_error("Error at line %d, column %d: Struct '%s' has no field '%s'\n",
                     expr->line, expr->column, struct_name, field_name);
             return TYPE_UNKNOWN;
         }
@@ -2492,7 +2504,7 @@ static Type check_expression_impl(ASTNode *expr, Environment *env) {
             /* Check that union is defined */
             UnionDef *udef = env_get_union(env, expr->as.union_construct.union_name);
             if (!udef) {
-                fprintf(stderr, "Error at line %d, column %d: Undefined union '%s'\n",
+                tc_expr_error("Error at line %d, column %d: Undefined union '%s'\n",
                         expr->line, expr->column, expr->as.union_construct.union_name);
                 return TYPE_UNKNOWN;
             }
@@ -2502,7 +2514,7 @@ static Type check_expression_impl(ASTNode *expr, Environment *env) {
                 expr->as.union_construct.union_name, 
                 expr->as.union_construct.variant_name);
             if (variant_idx < 0) {
-                fprintf(stderr, "Error at line %d, column %d: Unknown variant '%s' in union '%s'\n",
+                tc_expr_error("Error at line %d, column %d: Unknown variant '%s' in union '%s'\n",
                         expr->line, expr->column, 
                         expr->as.union_construct.variant_name,
                         expr->as.union_construct.union_name);
@@ -2512,7 +2524,7 @@ static Type check_expression_impl(ASTNode *expr, Environment *env) {
             /* Check that field count matches */
             int expected_field_count = udef->variant_field_counts[variant_idx];
             if (expr->as.union_construct.field_count != expected_field_count) {
-                fprintf(stderr, "Error at line %d, column %d: Variant '%s' expects %d fields, got %d\n",
+                tc_expr_error("Error at line %d, column %d: Variant '%s' expects %d fields, got %d\n",
                         expr->line, expr->column,
                         expr->as.union_construct.variant_name,
                         expected_field_count,
@@ -2534,7 +2546,7 @@ static Type check_expression_impl(ASTNode *expr, Environment *env) {
                 }
                 
                 if (field_index < 0) {
-                    fprintf(stderr, "Error at line %d, column %d: Unknown field '%s' in variant '%s'\n",
+                    tc_expr_error("Error at line %d, column %d: Unknown field '%s' in variant '%s'\n",
                             expr->line, expr->column, field_name,
                             expr->as.union_construct.variant_name);
                     return TYPE_UNKNOWN;
@@ -2551,7 +2563,7 @@ static Type check_expression_impl(ASTNode *expr, Environment *env) {
                     /* This is likely a generic type parameter - accept it for now */
                     /* The transpiler will handle concrete type generation */
                 } else if (actual_type != expected_type) {
-                    fprintf(stderr, "Error at line %d, column %d: Field '%s' expects type '%s', got '%s'\n",
+                    tc_expr_error("Error at line %d, column %d: Field '%s' expects type '%s', got '%s'\n",
                             expr->line, expr->column, field_name,
                             type_to_string(expected_type),
                             type_to_string(actual_type));
@@ -2566,7 +2578,7 @@ static Type check_expression_impl(ASTNode *expr, Environment *env) {
             /* Check the expression being matched */
             Type match_type = check_expression(expr->as.match_expr.expr, env);
             if (match_type != TYPE_UNION) {
-                fprintf(stderr, "Error at line %d, column %d: Match expression must be a union type\n",
+                tc_expr_error("Error at line %d, column %d: Match expression must be a union type\n",
                         expr->line, expr->column);
                 return TYPE_UNKNOWN;
             }
@@ -2675,7 +2687,7 @@ static Type check_expression_impl(ASTNode *expr, Environment *env) {
                 if (i == 0) {
                     return_type = arm_type;
                 } else if (arm_type != return_type && arm_type != TYPE_VOID) {
-                    fprintf(stderr, "Error at line %d, column %d: Match arms must all return the same type\n",
+                    tc_expr_error("Error at line %d, column %d: Match arms must all return the same type\n",
                             expr->line, expr->column);
                 }
             }
@@ -2787,7 +2799,7 @@ static Type check_expression_impl(ASTNode *expr, Environment *env) {
             for (int i = 0; i < element_count; i++) {
                 Type elem_type = check_expression(expr->as.tuple_literal.elements[i], env);
                 if (elem_type == TYPE_UNKNOWN) {
-                    fprintf(stderr, "Error at line %d, column %d: Tuple element %d has unknown type\n",
+                    tc_expr_error("Error at line %d, column %d: Tuple element %d has unknown type\n",
                             expr->line, expr->column, i);
                     return TYPE_UNKNOWN;
                 }
@@ -2802,7 +2814,7 @@ static Type check_expression_impl(ASTNode *expr, Environment *env) {
             Type tuple_type = check_expression(expr->as.tuple_index.tuple, env);
             
             if (tuple_type != TYPE_TUPLE) {
-                fprintf(stderr, "Error at line %d, column %d: Tuple index access on non-tuple type\n",
+                tc_expr_error("Error at line %d, column %d: Tuple index access on non-tuple type\n",
                         expr->line, expr->column);
                 return TYPE_UNKNOWN;
             }
@@ -2815,7 +2827,7 @@ static Type check_expression_impl(ASTNode *expr, Environment *env) {
             if (tuple_expr->type == AST_TUPLE_LITERAL) {
                 int element_count = tuple_expr->as.tuple_literal.element_count;
                 if (index < 0 || index >= element_count) {
-                    fprintf(stderr, "Error at line %d, column %d: Tuple index %d out of bounds (tuple has %d elements)\n",
+                    tc_expr_error("Error at line %d, column %d: Tuple index %d out of bounds (tuple has %d elements)\n",
                             expr->line, expr->column, index, element_count);
                     return TYPE_UNKNOWN;
                 }
@@ -2833,7 +2845,7 @@ static Type check_expression_impl(ASTNode *expr, Environment *env) {
                     
                     /* Check bounds */
                     if (index < 0 || index >= type_info->tuple_element_count) {
-                        fprintf(stderr, "Error at line %d, column %d: Tuple index %d out of bounds (tuple has %d elements)\n",
+                        tc_expr_error("Error at line %d, column %d: Tuple index %d out of bounds (tuple has %d elements)\n",
                                 expr->line, expr->column, index, type_info->tuple_element_count);
                         return TYPE_UNKNOWN;
                     }
@@ -2851,7 +2863,7 @@ static Type check_expression_impl(ASTNode *expr, Environment *env) {
         }
 
         default:
-            fprintf(stderr, "Error at line %d, column %d: Invalid expression type\n", expr->line, expr->column);
+            tc_expr_error("Error at line %d, column %d: Invalid expression type\n", expr->line, expr->column);
             return TYPE_UNKNOWN;
     }
 }
